@@ -95,6 +95,11 @@ HsMsg(s, v) ==
     ELSE IF Role[s] = "resp" /\ v.hs = 3 THEN RD(s, v.rh)
     ELSE None
 
+\* Noise NN derives the transport keys from the two ephemerals only (the payloads enter the handshake HASH, which the
+\* signatures cover, not the chaining key): records sealed for one RespHello open under any RespHello with the same
+\* pair of ephemerals
+SameKeys(a, b) == /\ a.t = "RH" /\ b.t = "RH" /\ a.eph = b.eph
+                  /\ a.ref.t = "IH" /\ b.ref.t = "IH" /\ a.ref.eph = b.ref.eph
 InDir(s) == IF Role[s] = "init" THEN "r2i" ELSE "i2r"
 OutDir(s) == IF Role[s] = "init" THEN "i2r" ELSE "r2i"
 
@@ -131,7 +136,7 @@ ReadHandshake(s, v, m) ==
              IN R3(v2, "hs", HsMsg(s, v2), 0)
         ELSE Err(v)
     ELSE IF Role[s] = "init" /\ v.hs = 2 /\ m.n = 3 THEN
-        IF m.t = "RD" /\ m.ref = v.rh
+        IF m.t = "RD" /\ SameKeys(m.ref, v.rh)
         THEN LET v2 == [v EXCEPT !.hs = 4, !.nout = NoncePost, !.rdseen = TRUE]
              IN R3(v2, "hs", HsMsg(s, v2), 0)
         ELSE Err(v)
@@ -141,7 +146,7 @@ ReadHandshake(s, v, m) ==
            \/ (Role[s] = "resp" /\ m.n = 0 /\ v.hs >= 1 /\ m = v.ih)
            \/ (Role[s] = "init" /\ m.n = 1 /\ v.hs >= 2 /\ m = v.rh)
            \/ (Role[s] = "resp" /\ m.n = 2 /\ v.hs >= 3 /\ m = v.idm)
-           \/ (Role[s] = "init" /\ m.n = 3 /\ v.hs >= 4 /\ v.rdseen /\ m.t = "RD" /\ m.ref = v.rh)
+           \/ (Role[s] = "init" /\ m.n = 3 /\ v.hs >= 4 /\ v.rdseen /\ m.t = "RD" /\ SameKeys(m.ref, v.rh))
         THEN R3(v, "hs", HsMsg(s, v), 0)
         ELSE Err(v)
     ELSE Err(v)
@@ -154,7 +159,7 @@ Fresh(v, n) == \/ "replay" \in Weak
 DeliverF(s, v, m) ==
     IF m.n \in {0, 1, 2, 3} THEN ReadHandshake(s, v, m)
     ELSE IF ~CanRecv(s, v) THEN Err(v)                               \* ErrEarlyData
-    ELSE IF ~(m.t = "D" /\ m.ref = v.rh /\ m.dir = InDir(s)) THEN Err(v)   \* decryption failure
+    ELSE IF ~(m.t = "D" /\ SameKeys(m.ref, v.rh) /\ m.dir = InDir(s)) THEN Err(v)   \* decryption failure
     ELSE IF ~Fresh(v, m.n) THEN R3(v, "drop", None, 0)               \* replayed / too old: (false, nil, nil)
     ELSE LET v2 == [v EXCEPT !.seen = @ \cup {m.n}, !.hs = 8,
                              \* an initiator completed by data re-bases its counter like readRespDone does
@@ -273,7 +278,7 @@ HonestPair == \A s, p \in Sess : (Partner(s, p) /\ Ready(s, st[s]) /\ Ready(p, s
 
 (* C02 at session level *)
 Authentic == \A x \in out : \E m \in net : /\ m.t = "D" /\ m.pt = x[2] /\ m.by \in Sess \cup {"M"}
-                                           /\ m.ref = st[x[1]].rh /\ m.dir = InDir(x[1])
+                                           /\ SameKeys(m.ref, st[x[1]].rh) /\ m.dir = InDir(x[1])
                                            /\ (m.by \in Sess => Partner(x[1], m.by))
                                            /\ (m.by = "M" => st[x[1]].rk = AKey)
 AtMostOnce == ~dup
